@@ -35,6 +35,7 @@ type Ctx struct {
 	nontrivial map[string]struct{}
 	samples    []interface{}
 	violations []Violation
+	perSig     map[string]int
 	evals      int
 	extra      map[string]interface{}
 }
@@ -136,7 +137,13 @@ func (c *Ctx) Sample(v interface{}) {
 func (c *Ctx) Extra(k string, v interface{}) { c.mu.Lock(); c.extra[k] = v; c.mu.Unlock() }
 func (c *Ctx) Violation(kind, sig, what string, replay interface{}) {
 	c.mu.Lock()
-	if len(c.violations) < 50 {
+	// a bound per signature, not one for the whole run: many reports of one (possibly known) finding must not crowd
+	// out the first report of another
+	if c.perSig == nil {
+		c.perSig = map[string]int{}
+	}
+	if c.perSig[sig] < 8 && len(c.violations) < 400 {
+		c.perSig[sig]++
 		c.violations = append(c.violations, Violation{kind, sig, what, replay})
 	}
 	c.mu.Unlock()
